@@ -4,7 +4,7 @@
    `erase` forgets the `external` flag of hyperlinks (which the code loses: finding F10, see the
    `_refuted` statements) and reads the deprecated tag name "emph" as "em". *)
 From Pybtex Require Import Base.Prelude Base.PyChar Base.PyStr Model.RtTypes Model.RichText
-  Spec.Flat Spec.FlatOps Proofs.RichText Proofs.RichSlice.
+  Spec.Flat Spec.FlatOps Proofs.RichText Proofs.RichSlice Proofs.RichOps.
 
 (* len(text) is the number of (character, markup) pairs of the rendering *)
 Theorem len_flat : forall t, rlen t = length (flat t).
@@ -83,6 +83,26 @@ Theorem index_out_of_range_raises_refuted : exists t i, pyindex (flat t) i = Non
 Proof. exact index_out_of_range_refuted. Qed.
 Print Assumptions index_out_of_range_raises_refuted.
 
+(* capfirst(): the first pair is upper-cased unless protected; capitalize(): and the rest lowered *)
+Theorem capfirst_flat_partial : forall t, exists v, capfirst t = Ok v /\
+  erase (flat v) = capfirst_flat (erase (flat t)).
+Proof. exact capfirst_flat_e. Qed.
+Print Assumptions capfirst_flat_partial.
+
+Theorem capitalize_flat_partial : forall t, exists v, capitalize t = Ok v /\
+  erase (flat v) = capitalize_flat (erase (flat t)).
+Proof. exact capitalize_flat_e. Qed.
+Print Assumptions capitalize_flat_partial.
+
+(* histories: every expression built from the constructors, upper, lower, capitalize, capfirst,
+   slices, +, append and join applied on top of one another in any way (`spec e` is defined)
+   evaluates without error, and its value carries the top-level markup and renders as the pair
+   sequence that the same operations give on plain sequences (`spec`, Spec/FlatOps.v) *)
+Theorem ops_compose_partial : forall e r, spec e = Some r ->
+  exists v, eval_c e = Ok v /\ top_e v = fst r /\ erase (flat v) = snd r.
+Proof. exact ops_compose_e. Qed.
+Print Assumptions ops_compose_partial.
+
 (* non-vacuity / sanity: concrete values *)
 Example ctor_example :
   mkc KText [RStr (s2l "Multi"); RTag (s2l "em") [RStr (s2l "part")]; RText [RTag (s2l "em") [RStr (s2l " "); RStr (s2l "text!")]]]
@@ -106,3 +126,9 @@ Example index_example :
   pyindex (erase (flat (RText [RStr (s2l "ab"); RTag (s2l "em") [RStr (s2l "c")]]))) (-1) = Some (ACh 99%N, [MTag (s2l "em")])
   /\ getitem_c (RText [RStr (s2l "ab"); RTag (s2l "em") [RStr (s2l "c")]]) (KInt (-1)) = Ok (RText [RTag (s2l "em") [RStr (s2l "c")]]).
 Proof. vm_compute. split; reflexivity. Qed.
+(* Text(Tag('em', 'long Cat'), 'x').capitalize()[1:].append('!') is in the domain of `spec` *)
+Example ops_example :
+  spec (EAppend (ESlice (ECapitalize (EText [ETag (s2l "em") [EStr (s2l "lo Cat")]; EStr (s2l "x")])) (Some 1%Z) None) (EStr (s2l "!")))
+  = Some (None, [(ACh 111%N, [MTag (s2l "em")]); (ACh 32%N, [MTag (s2l "em")]); (ACh 99%N, [MTag (s2l "em")]);
+                 (ACh 97%N, [MTag (s2l "em")]); (ACh 116%N, [MTag (s2l "em")]); (ACh 120%N, []); (ACh 33%N, [])]).
+Proof. vm_compute. reflexivity. Qed.
